@@ -73,13 +73,13 @@ _COUNT = [0]
 
 def make_event(case):
     buf, funcs = case["buf"], case["funcs"]
-    _COUNT[0] += 1
-    if _COUNT[0] % 3000 == 1:
-        common.process_noise(_COUNT[0] // 3000)
+    key = "%s|%s" % (buf, funcs)
+    if common.pick(key, 3000) == 0:
+        common.process_noise(common.pick(key, 997))
     ev = {"buf": buf, "funcs": funcs, "keep": observe(buf, funcs, True), "drop": observe(buf, funcs, False)}
     # a reused, reconfigured tokenizer must answer exactly like a new one; where it does not, ITS answer is the observation
-    rk = observe_reused(buf, funcs, True, _COUNT[0])
-    rd = observe_reused(buf, funcs, False, _COUNT[0] // 2)
+    rk = observe_reused(buf, funcs, True, common.pick(key, 2))
+    rd = observe_reused(buf, funcs, False, common.pick(key, 4) // 2)
     if rk != ev["keep"] or rd != ev["drop"]:
         ev["keep"], ev["drop"], ev["reused"] = rk, rd, True
     return ev
@@ -171,7 +171,7 @@ def run(ctx, cases=None):
         res.exhaustive = True
     else:
         res.rule = "replay"
-    from multiprocessing import Pool
+    from ..common import Pool
     with Pool(16) as pool:
         events = pool.map(make_event, cases, chunksize=2000)
     res.extra["reused_tokenizer_disagreements"] = sum(1 for e in events if e.get("reused"))
